@@ -177,44 +177,77 @@ func Ping(addr string) bool {
 
 // Await consumes messages up to and including the first one for which isMarker
 // is true and returns the messages before it.
+//
+// The watchdog only counts time during which this process was demonstrably
+// running: the wait is cut into slices of at most 250 ms and a slice that took
+// more than three times its planned length (machine stall, VM pause, clock
+// jump) is not counted at all. When the budget is used up the server is probed
+// with PING; if it answers, the queue gets a last grace period of 3 s (a
+// responsive server delivers within milliseconds) before the verdict is Lost.
 func (s *Stream) Await(isMarker func(Msg) bool, o WaitOpts) (before []Msg, v Verdict, why string) {
 	wd := o.Watchdog
 	if wd == 0 {
 		wd = DefaultWatchdog
 	}
-	deadline := time.Now().Add(wd)
-	for {
+	// take drains the queue up to the marker
+	take := func() (found bool, err error) {
 		s.mu.Lock()
+		defer s.mu.Unlock()
 		for len(s.items) > 0 {
 			m := s.items[0]
 			s.items = s.items[1:]
 			if isMarker(m) {
-				s.mu.Unlock()
-				return before, Arrived, ""
+				return true, nil
 			}
 			before = append(before, m)
 		}
 		s.items = nil
-		err := s.err
-		s.mu.Unlock()
-		if err != nil {
-			// the collector's own pipe broke: not a statement about notifications
-			return before, Inconclusive, "collector stream ended: " + err.Error()
-		}
-		rem := time.Until(deadline)
-		if rem <= 0 {
-			if Ping(o.Addr) {
-				return before, Lost, fmt.Sprintf("marker not seen within %v, server answers PING", wd)
-			}
-			return before, Inconclusive, fmt.Sprintf("marker not seen within %v and server does not answer PING", wd)
-		}
-		t := time.NewTimer(rem)
+		return false, s.err
+	}
+	// waitSlice waits up to d for a notification and returns the time to charge
+	waitSlice := func(d time.Duration) time.Duration {
+		start := time.Now()
+		t := time.NewTimer(d)
 		select {
 		case <-s.notify:
 		case <-t.C:
 		}
 		t.Stop()
+		el := time.Since(start)
+		if el > 3*d {
+			return 0 // stalled: do not charge
+		}
+		return el
 	}
+	var used time.Duration
+	for {
+		found, err := take()
+		if found {
+			return before, Arrived, ""
+		}
+		if err != nil {
+			// the collector's own pipe broke: not a statement about notifications
+			return before, Inconclusive, "collector stream ended: " + err.Error()
+		}
+		if used >= wd {
+			break
+		}
+		d := wd - used
+		if d > 250*time.Millisecond {
+			d = 250 * time.Millisecond
+		}
+		used += waitSlice(d)
+	}
+	if !Ping(o.Addr) {
+		return before, Inconclusive, fmt.Sprintf("marker not seen within %v and server does not answer PING", wd)
+	}
+	for grace := time.Duration(0); grace < 3*time.Second; {
+		grace += waitSlice(250 * time.Millisecond)
+		if found, _ := take(); found {
+			return before, Arrived, ""
+		}
+	}
+	return before, Lost, fmt.Sprintf("marker not seen within %v (+3 s after a successful PING), server answers PING", wd)
 }
 
 // ---------------------------------------------------------------- channels
